@@ -156,4 +156,11 @@ theorem C17_mmap_frame (file data : Bytes.Bytes) (p : Nat) (hp : p + data.length
     congr 2
     omega
 
+
+/-- non-vacuity: a fresh non-seekable stream and a 1.4 file with points and EVLRs meet the hypotheses of `C17_no_seek`;
+    opening succeeds on it -/
+example : let s : Stream := ⟨false, false, 0, false, []⟩
+    s.seekable = false ∧ s.log = [] ∧ ∃ r, openRead s ⟨true, true, true, true, true, 5, 2, 375, 30⟩ true true = .ok r :=
+  ⟨rfl, rfl, _, rfl⟩
+
 end LasModel.Props.C17
